@@ -228,6 +228,7 @@ void h_gc_rem(void) {
   GC_Rem(gc, in_p);
   ASSERT(!was_running || (gc->nitems == (size_t)(old_n - old_has_p) && wf_gc(gc, NS, 1)), "[C17] the recorded count matches the registry after rem, also when the pointer was not registered");
   ASSERT(!old_has_p || (cv_destructs == 1 && cv_deallocs == 1 && !view(gc, NS, in_p, NULL, NULL)), "[C06] del of a managed object finalises and releases it exactly once, whether the collector is running or stopped");
+  ASSERT(was_running || old_has_p || (cv_destructs == 1 && cv_deallocs == 1 && cv_last_destruct == in_p && entries_unchanged()), "[C06] an object the stopped collector never registered is finalised and released directly by del, the registry untouched");
   ASSERT(!was_running || (cv_resize_less_calls == 1 && cv_resize_less_items == gc->nitems && gc->mitems == gc->nitems + gc->nitems / 2 + 1), "[C17] shrinking is checked after the removal has been counted");
 }
 void h_gc_del(void) {
